@@ -529,7 +529,13 @@ func TestReplay(t *testing.T) {
 		msg := firstPanic(errBuf.String() + "\n" + strings.Join(tail, "\n"))
 		id := fmt.Sprintf("b%d", last)
 		key, where, detail := beginOf(id)
-		out.Violation(id, key, "process crashed instead of failing the block ("+where+"): "+msg, detail)
+		stack := errBuf.String() + "\n" + strings.Join(tail, "\n")
+		if strings.Contains(stack, "worldVirtualState).Reset") && strings.Contains(stack, "accountStateImpl).Reset") {
+			// wvs.Reset on a retry: Reset(nil) of a write-locked account that does not exist in the base snapshot
+			key = "parexec:crash:retry-reset-of-new-account"
+			msg = "log.Panicf in accountStateImpl.Reset(nil) called from worldVirtualState.Reset while retrying a transaction"
+		}
+		out.Violation(id, key, "process crashed ("+where+"): "+msg, detail)
 		from = last + 1
 	}
 	out.Close(map[string]int{"crashes": crashes})
